@@ -58,6 +58,18 @@ def run_workers(cases: List[Dict[str, Any]]):
                 procs[(b, order)] = subprocess.Popen([PY, "-B", "-m", "vf.workers.model_worker", b, path,
                                                       os.path.join(tmp, f"{b}_{order}.pkl")],
                                                      env=env, cwd=ROOT, stdout=subprocess.PIPE, stderr=subprocess.PIPE)
+        # ... and once more with four threads validating every case simultaneously
+        # (the fallback backend only: with Pydantic installed the first use of a class whose annotations were not
+        # resolvable at class creation rebuilds it inside Pydantic, and that rebuild is not thread-safe in Pydantic 2.13
+        # itself - AttributeError __pydantic_core_schema__ seen once in four threads - which is not this library's code;
+        # the threaded fallback run is compared with the single-threaded Pydantic run)
+        for b in ("fallback",):
+            env = child_env()
+            env.pop("MCP_FORCE_FALLBACK", None)
+            env["VF_THREADS"] = "4"
+            procs[(b, "thr")] = subprocess.Popen([PY, "-B", "-m", "vf.workers.model_worker", b, inp,
+                                                  os.path.join(tmp, f"{b}_thr.pkl")],
+                                                 env=env, cwd=ROOT, stdout=subprocess.PIPE, stderr=subprocess.PIPE)
         for (b, order), p in procs.items():
             _, err = p.communicate(timeout=1500)
             if p.returncode != 0:
@@ -66,6 +78,8 @@ def run_workers(cases: List[Dict[str, Any]]):
             if order == "rev":
                 o["reports"] = list(reversed(o["reports"]))
                 outs[b + "_rev"] = o
+            elif order == "thr":
+                outs[b + "_thr"] = o
             else:
                 outs[b] = o
         return outs
@@ -174,13 +188,21 @@ def run(ctx):
         ctx.inconclusive_because("backend selection not effective (PYDANTIC_AVAILABLE identical in both workers)")
         return
     pairs = list(zip(mine, outs["pydantic"]["reports"], outs["fallback"]["reports"], ["fwd"] * len(mine))) + \
-        list(zip(mine, outs["pydantic_rev"]["reports"], outs["fallback_rev"]["reports"], ["rev"] * len(mine)))
+        list(zip(mine, outs["pydantic_rev"]["reports"], outs["fallback_rev"]["reports"], ["rev"] * len(mine))) + \
+        list(zip(mine, outs["pydantic"]["reports"], outs["fallback_thr"]["reports"], ["threads"] * len(mine)))
+    ctx.count("thread_disagreements_fallback", outs["fallback_thr"].get("thread_disagreements", 0))
     for c, rp, rf, order in pairs:
         ctx.count("cases_compared")
         ctx.count("order:" + order)
         case = {k: v for k, v in c.items()}
         if order == "rev":
             case["validation_order"] = "reverse"
+        if order == "threads":
+            case["validation"] = "four threads at once"
+            for side, rr in (("fallback", rf),):
+                if rr.get("thread_disagreement"):
+                    ctx.violation("threads_disagree", f"{c.get('cls', 'envelope')}: four threads validating the same object at the same "
+                                  f"moment under the {side} backend did not all see the same: {rr['thread_disagreement']}", case)
         cls = c.get("cls", "envelope").split(":")[-1]
         if c["kind"] == "invariant":
             okp, okf = rp.get("ok"), rf.get("ok")
